@@ -1,22 +1,28 @@
 """C08 - Packet codec: own output re-parses byte-exactly; foreign input normalises once (reader/writer agreement).
 
 For EVERY class that has both `parse` and `__bytearray__` (own or through its MRO) the reader sequence (E2) and the writer byte
-terms (E1) are extracted on every path and checked:
-  C08.a consume-what-you-read: every slice read from the buffer is consumed (by a `del` of at least that width) before the next read
+terms (E1) are extracted on every path and checked.  Every rule is decided on interpreter values / events / path facts (never on
+`ast.unparse` text, local names or statement shapes):
+  C08.a consume-what-you-read: every slice read from the buffer is consumed (by a `del` of at least that width, a pop, or one del that
+        the pending offset reads tile) before the next read
   C08.b alias-then-consume: after the input buffer was stored without copying, nothing may consume from it
-  C08.c field order: the fields the reader fills, in order, are the fields the writer emits, in order (with their fixed widths)
-  C08.d remainder arithmetic: a trailing `header.length - k` read must leave out exactly what was consumed before it
+  C08.c field order: the fields the reader fills, in stream order, are the fields the writer emits, in order (with their fixed widths);
+        key material integers are taken off the buffer in the declared order
+  C08.d remainder arithmetic: a trailing `header.length - k` read must leave out exactly what was consumed before it (linear forms)
   C08.e length-covers-what-follows: each length the writer emits is followed by exactly the octets it counts
-  C08.f text codec symmetry: a text field is written with the codec it is read with
-  C08.g dispatch table: every packet tag has a class (or is deliberately opaque); versioned classes define both methods
-  C08.h update-after-mutation: library code that builds or changes a packet body recomputes its header length afterwards
+  C08.f text codec symmetry: a text field is written with the codec it is read with, per reader path; a remembered fallback codec is
+        the one the writer uses in that object state
+  C08.g dispatch: every packet tag has a class, versioned classes define both methods; the dispatcher builds the object from the registry
+        entry of (root, type[, version]) and falls back to the opaque entry; opaque payload verbatim; parse errors become PGPError
+  C08.h update-after-mutation: library code that builds or changes a packet body recomputes its header length after the last change on
+        every path; nested lengths before the packet length; the length formulas
   C08.i header length-of-length follows the length also for parsed old-format headers (with C09.2)
 """
 import ast
 import re
 
-from sa.interp import Interp, Scenario, Sym, Const, Bytes, Enum, render, render_items, render_item, merge_consts
-from sa.loader import AnalysisError, dotted
+from sa.interp import Interp, Scenario, Sym, Const, Bytes, Enum, Frame, State, render, render_items, render_item, merge_consts, lin_parse, lin_norm, lin_add, sl
+from sa.loader import AnalysisError, FunctionInfo, dotted
 from sa import codec, tables
 
 noinline = lambda f: False  # noqa: E731
@@ -52,14 +58,14 @@ def base_offset(cls):
 
 
 def run(rep, prog, tier):
-    rep.rule('C08.a', 'every slice read is consumed before the next read', floor=60)
-    rep.rule('C08.b', 'nothing consumes from an aliased input buffer', floor=60)
-    rep.rule('C08.c', 'reader field order = writer field order (names and fixed widths)', floor=30)
-    rep.rule('C08.d', 'trailing remainder read = header.length - (header octets + fixed widths read before)', floor=15)
+    rep.rule('C08.a', 'every slice read is consumed before the next read', floor=90)
+    rep.rule('C08.b', 'nothing consumes from an aliased input buffer', floor=90)
+    rep.rule('C08.c', 'reader field order = writer field order (names and fixed widths)', floor=70)
+    rep.rule('C08.d', 'trailing remainder read = header.length - (header octets + fixed widths read before)', floor=16)
     rep.rule('C08.e', 'each emitted length is followed by the octets it counts', floor=4)
-    rep.rule('C08.f', 'text fields are written with the codec they are read with', floor=6)
-    rep.rule('C08.g', 'dispatch coverage: packet tags and versioned classes', floor=18)
-    rep.rule('C08.h', 'update_hlen after building or changing a packet body', floor=10)
+    rep.rule('C08.f', 'text fields are written with the codec they are read with (per reader path and remembered fallback)', floor=14)
+    rep.rule('C08.g', 'dispatch: packet tags and versioned classes have codecs; unknown type/version -> opaque entry; opaque payload verbatim; parse errors -> PGPError', floor=30)
+    rep.rule('C08.h', 'update_hlen after the last body change of a built/changed packet on every path; inner lengths before the packet length', floor=18)
     rep.rule('C08.i', 'old-format header width follows the length', floor=1)
     rep.assume('MPI(buf), ECPoint(buf), Klass(buf) and sub.parse(buf) consume exactly what the corresponding writer emits (each is itself a checked pair)')
     rep.assume('value normalisations that are fixed points (flag masks, canonical lengths, MPI bit counts) are allowed by the statement')
@@ -115,14 +121,14 @@ def reader_paths(prog, c, pf):
 def check_reader(rep, prog, c, pf):
     buf = pf.params[1] if len(pf.params) > 1 else 'packet'
     for s in reader_paths(prog, c, pf):
-        reads, problems = codec.reader_sequence(s, buf, cls=c)
+        reads, problems = codec.reader_sequence(s, buf, cls=c, recv=pf.params[0])
         scen = '; '.join('%s=%s' % (f[0][:50], f[1]) for f in s.facts) or 'straight line'
         construct = '%s.parse' % c.name if pf.cls is c else '%s.parse (inherited by %s)' % (pf.cls.name, c.name)
         a = [p for p in problems if p[0] in ('consume-what-you-read', 'read-offset', 'unmodelled-del')]
         # one named exception: SubPackets.parse copies the whole hashed area out verbatim (C05) before parsing it field by field;
-        # that copy is a deliberate peek, not a field read
+        # that copy is a deliberate peek, not a field read: a read of [: 2 + <the two-octet count just read>] stored untransformed
         if c.name in ('SubPackets', 'UserAttributeSubPackets') and pf.cls.name == 'SubPackets':
-            a = [p for p in a if not ('SLICE(packet;;(2 + self.bytes_to_int(SLICE(packet;;2))))' in p[1] or '(self.bytes_to_int(SLICE(packet;;2)) + 2)' in p[1])]
+            a = [p for p in a if not _is_area_peek(p, buf, reads)]
         b = [p for p in problems if p[0] == 'alias-then-consume']
         rep.check(not a, 'C08.a', construct, a[0][1] if a else 'consumes what it reads',
                   'the reader reads octets it does not consume (or consumes fewer than it read): the next field starts at the wrong offset'
@@ -130,63 +136,70 @@ def check_reader(rep, prog, c, pf):
         rep.check(not b, 'C08.b', construct, b[0][1] if b else 'no consumption after aliasing',
                   'the input buffer was stored without copying and is consumed afterwards: the stored field loses octets' if b else 'ok',
                   where='%s:%d' % (pf.module.relpath, b[0][2] if b else pf.node.lineno), scenario=scen, found=[p[1] for p in b])
-        check_remainder(rep, c, pf, reads, scen, construct)
+        check_remainder(rep, c, pf, reads, scen, construct, s)
 
 
-def _linear(text):
-    """Parse `self.header.length - k` / `(self.header.length - (6 + x))` into (coefficient of header.length, constant, symbols)."""
-    t = text.replace(' ', '')
-    while t.startswith('(') and t.endswith(')') and _bal(t[1:-1]):
-        t = t[1:-1]
-    if t == 'self.header.length':
-        return 0, []
-    m = re.match(r'^self\.header\.length-(.+)$', t)
-    if not m:
+def _is_area_peek(problem, buf, reads):
+    """The problematic read is buf[: 2 + n], stored untransformed, where n is a function of the first two octets only (the count that
+    is consumed next), whatever conversion and temporaries the source spells."""
+    r = getattr(problem, 'read', None)
+    if r is None or (r.post is not None and r.post != r.text):
+        return False
+    rng = codec.slice_of(r.text, buf)
+    if rng is None or rng[0] not in ('', '0') or r.text != sl(buf, ('', rng[1])):
+        return False
+    terms, const = lin_parse(rng[1])
+    if const != 2 or len(terms) != 1 or list(terms.values()) != [1]:
+        return False
+    n = list(terms)[0]
+    two = sl(buf, ('', 2))
+    return two in n and not codec.mentions(n.replace(two, ''), buf)
+
+
+def _remainder(text, length):
+    """`length - k - x ...` as an integer-linear form: (constant subtracted, {symbol: coefficient subtracted}); None when the
+    text is not `length` minus something."""
+    terms, c = lin_parse(text)
+    if terms.get(length) != 1:
         return None
-    rest = m.group(1)
-    while rest.startswith('(') and rest.endswith(')') and _bal(rest[1:-1]):
-        rest = rest[1:-1]
-    const, syms = 0, []
-    for part in _split_plus(rest):
-        if re.match(r'^\d+$', part):
-            const += int(part)
-        else:
-            syms.append(part)
-    return const, syms
+    return -c, {k: -v for k, v in terms.items() if k != length}
 
 
-def _bal(s):
-    d = 0
-    for ch in s:
-        if ch in '([{':
-            d += 1
-        elif ch in ')]}':
-            d -= 1
-            if d < 0:
-                return False
-    return d == 0
+def _lin_sum(texts):
+    terms, c = {}, 0
+    for t in texts:
+        tt, cc = lin_parse(t)
+        c += cc
+        for k, v in tt.items():
+            terms[k] = terms.get(k, 0) + v
+    return c, {k: v for k, v in terms.items() if v != 0}
 
 
-def _split_plus(t):
-    parts, depth, cur = [], 0, ''
-    for ch in t:
-        if ch in '([{':
-            depth += 1
-        elif ch in ')]}':
-            depth -= 1
-        if ch == '+' and depth == 0:
-            parts.append(cur)
-            cur = ''
-        else:
-            cur += ch
-    parts.append(cur)
-    return parts
+def _versioned_fact(s, p0):
+    """The path took the `header has a version attribute` side of Opaque.parse (decided from the fact skeleton, not its text)."""
+    def atom(sk):
+        if not sk:
+            return False
+        if sk[0] == 'call' and sk[1] in ('hasattr', 'getattr') and len(sk[2]) >= 2 and sk[2][0] == '%s.header' % p0 and sk[2][1] == "'version'":
+            return True
+        if sk[0] == 'cmp' and 'getattr(%s.header, \'version\'' % p0 in sk[2] + sk[3] and 'None' in (sk[2], sk[3]) and sk[1] in ('is not', '!='):
+            return True
+        return False
+    for f in s.facts:
+        sk = f[2] if len(f) > 2 else None
+        if atom(sk) and f[1] is True:
+            return True
+        if sk and sk[0] == 'not' and atom(sk[1]) and f[1] is False:
+            return True
+    return False
 
 
-def check_remainder(rep, c, pf, reads, scen, construct):
+def check_remainder(rep, c, pf, reads, scen, construct, s=None):
     """C08.d on one reader path."""
+    p0 = pf.params[0]
+    length = '%s.header.length' % p0
     base = base_offset(c)
-    if c.name == 'Opaque' and "hasattr(self.header, 'version')=True" in scen:
+    if c.name == 'Opaque' and s is not None and _versioned_fact(s, p0):
         base = 1          # the version octet of a versioned header was already read by the dispatcher
     fixed_before = 0
     sym_before = []
@@ -199,28 +212,30 @@ def check_remainder(rep, c, pf, reads, scen, construct):
                 if not seen_var:
                     fixed_before += wi
                 continue
-            lin = _linear(w)
+            lin = _remainder(w, length)
             if lin is None:
                 # a variable width that is not a remainder (e.g. a length read from the data): it precedes a later remainder symbolically
-                sym_before.append(w.replace(' ', ''))
+                sym_before.append(w)
                 continue
             const, syms = lin
             want = base + fixed_before
+            wc, wsyms = _lin_sum(sym_before)
             # symbolic widths consumed before must appear in the subtrahend
-            ok = const == want and sorted(s.replace(' ', '') for s in syms) == sorted(sym_before) and not seen_var
+            ok = const == want + wc and syms == wsyms and not seen_var
             rep.check(ok, 'C08.d', construct, 'remainder %s after %d header + %d fixed octets%s' % (w, base, fixed_before, (' + ' + ' + '.join(sym_before)) if sym_before else ''),
                       'the last field is read as header.length minus a constant that does not equal the octets already consumed: '
                       'the reader takes too many or too few octets and the following packet is mis-framed', where='%s:%d' % (pf.module.relpath, r.line),
-                      expected='self.header.length - %s' % ' - '.join([str(want)] + sym_before) if (want or sym_before) else 'self.header.length',
+                      expected='%s - %s' % (length, ' - '.join([str(want)] + sym_before)) if (want or sym_before) else length,
                       found=w, scenario=scen)
             seen_var = True
         elif r.kind == 'delegate' and not (r.via or '').startswith('super:'):
             # a sub-parser consumes an unknown amount: a later remainder cannot be checked by constants (SKESK uses len(s2k))
             if r.via and not r.via.startswith('setter:'):
                 sym_before.append('len(%s)' % (r.via[:-len('.parse')] if r.via.endswith('.parse') else r.via))
-                if r.via.endswith('s2k.parse'):
-                    # axiom: the usage octet inserted by SKESessionKeyV4.parse stands in for the version octet
-                    fixed_before -= base
+        elif r.kind == 'insert' and codec._int(r.width) is not None and not seen_var:
+            # an octet put in front of the buffer for a sub-parser (SKESessionKeyV4: a usage octet for the S2K specifier) is consumed by it
+            # and counted in its length, but is not one of the header.length octets
+            fixed_before += codec._int(r.width)
 
 
 def check_writer_lengths(rep, prog, c, wf):
@@ -236,50 +251,57 @@ def check_writer_lengths(rep, prog, c, wf):
 
 
 # ------------------------------------------------------------------------------------------------ C08.c
-def _field_of(text):
-    """Name of the object attribute a writer term / reader target refers to."""
-    m = re.search(r'self\.(_?[A-Za-z][A-Za-z0-9_]*)', text or '')
+def _field_of(text, p0='self'):
+    """Name of the object attribute a writer term / reader target refers to (`p0` = the receiver parameter of the method)."""
+    m = re.search(r'(?<![A-Za-z0-9_.])%s\.(_?[A-Za-z][A-Za-z0-9_]*)' % re.escape(p0), text or '')
     if not m:
         return None
     n = m.group(1).lstrip('_')
     return n
 
 
-WIDTH_OF_ITEM = {'BYTE': '1'}
+def _fields_of(text, p0='self'):
+    """All object attributes a term refers to, as one name `a|b` (a value built from / stored into several attributes belongs to each)."""
+    ns = sorted(set(m.group(1).lstrip('_') for m in re.finditer(r'(?<![A-Za-z0-9_.])%s\.(_?[A-Za-z][A-Za-z0-9_]*)' % re.escape(p0), text or '')))
+    return '|'.join(ns) if ns else None
 
 
-def writer_fields(items):
+def _same(a, b):
+    return bool(set(a.split('|')) & set(b.split('|')))
+
+
+def writer_fields(items, p0='self'):
     out = []
     for it in merge_consts(items):
         k = it[0]
         if k == 'C':
             out.append((None, str(len(it[1]))))
         elif k == 'INT':
-            out.append((_field_of(it[2]), it[1]))
+            out.append((_fields_of(it[2], p0), it[1]))
         elif k == 'BYTE':
-            out.append((_field_of(it[1]), '1'))
+            out.append((_fields_of(it[1], p0), '1'))
         elif k == 'SYM':
             if 'header.__bytearray__' in it[1] or it[1].startswith('super('):
                 out.append(('<header>', None))
             else:
-                out.append((_field_of(it[1]), None))
+                out.append((_fields_of(it[1], p0), None))
         elif k == 'SLICE':
             inner = it[1] if isinstance(it[1], str) else render_items(it[1])
-            out.append((_field_of(inner), None))
+            out.append((_fields_of(inner, p0), None))
         elif k in ('EACH', 'REP', 'ALT', 'HASH'):
-            out.append((_field_of(render_item(it)) or '<loop>', None))
+            out.append((_fields_of(render_item(it), p0) or '<loop>', None))
     return out
 
 
-def reader_fields(reads):
+def reader_fields(reads, p0='self'):
     out = []
     for r in reads:
         if r.kind == 'delegate' and (r.via or '').startswith('super:'):
             out.append(('<header>', None))
         elif r.kind in ('fixed', 'fixed-skip', 'delegate', 'alias', 'fixed-delegate'):
-            name = _field_of(r.target) if r.target and r.target.startswith('self.') else None
-            if name is None and r.kind == 'delegate' and r.via and r.via.startswith('self.'):
-                name = _field_of(r.via)
+            name = _fields_of(' '.join([r.target] + [a for a in r.also if a.startswith(p0 + '.')]), p0) if r.target and r.target.startswith(p0 + '.') else None
+            if name is None and r.kind == 'delegate' and r.via and r.via.startswith(p0 + '.'):
+                name = _field_of(r.via, p0)
             out.append((name, r.width))
         elif r.kind == 'skip':
             out.append((None, r.width))
@@ -299,35 +321,42 @@ def check_field_order(rep, prog, classes):
         if not rps or not wps:
             continue
         buf = pf.params[1] if len(pf.params) > 1 else 'packet'
+        rp0, wp0 = pf.params[0], wf.params[0]
         # compare the set of field-name sequences: every reader path must have a writer path with the same named-field order
         wseqs = []
         for s, items in wps:
-            wf_ = [n for n, w in writer_fields(items) if n and n != '<header>' and n != '<loop>']
+            wf_ = [n for n, w in writer_fields(items, wp0) if n and n != '<header>' and n != '<loop>']
             wseqs.append(wf_)
+        rw, ww = {}, {}
         for s in rps:
-            reads, _ = codec.reader_sequence(s, buf, cls=c)
-            rf = [n for n, w in reader_fields(reads) if n and n != '<header>']
+            reads, _ = codec.reader_sequence(s, buf, cls=c, recv=rp0)
+            rf = [n for n, w in reader_fields(reads, rp0) if n and n != '<header>']
             # locals used only as lengths (nlen, vlen, fnl, oidlen) have no name; duplicates of the same field collapse
             rf = _dedupe(rf)
             scen = '; '.join('%s=%s' % (f[0][:40], f[1]) for f in s.facts) or 'straight line'
-            match = any(_dedupe(w) == rf or _subseq(rf, _dedupe(w)) for w in wseqs)
+            match = any(_subseq(rf, _dedupe(w)) for w in wseqs)
             rep.check(match, 'C08.c', '%s parse/__bytearray__' % c.name, 'reader fields %s vs writer fields %s' % (rf, [_dedupe(w) for w in wseqs][:2]),
                       'the reader fills the fields in an order the writer does not emit them in: own output does not re-parse to the same values',
                       where=pf.where, expected=[_dedupe(w) for w in wseqs][:2], found=rf, scenario=scen)
-        # fixed widths: positions where both sides have a constant width must agree
-        for s in rps[:1]:
-            reads, _ = codec.reader_sequence(s, buf, cls=c)
-            skipk = set(_field_of(r.target) for r in reads if r.kind == 'fixed-skip' and r.target)
-            rw = {n: w for n, w in reader_fields(reads) if n and codec._int(w) is not None and n not in skipk}
-            for sw, items in wps[:1]:
-                ww = {n: w for n, w in writer_fields(items) if n and w is not None and codec._int(w) is not None}
-                for n in rw:
-                    if n in ww and codec._int(rw[n]) != codec._int(ww[n]):
-                        # a reader that consumes more than the named field (skip) is a normalisation; narrower writer is a defect
-                        rep.violation('C08.c', '%s parse/__bytearray__' % c.name, 'field %s: reader %s octets, writer %s' % (n, rw[n], ww[n]),
-                                      'field %s is read with %s octets but written with %s' % (n, rw[n], ww[n]), where=pf.where)
-                    elif n in ww:
-                        rep.ok('C08.c', '%s.%s' % (c.name, n), 'width %s both ways' % rw[n])
+            # a reader that consumes more than the named field (skip) is a normalisation and takes no part in the width comparison
+            skipk = set(_field_of(r.target, rp0) for r in reads if r.kind == 'fixed-skip' and r.target)
+            for ns, w in reader_fields(reads, rp0):
+                for n in (ns or '').split('|'):
+                    if n and n != '<header>' and codec._int(w) is not None and n not in skipk:
+                        rw.setdefault(n, set()).add(codec._int(w))
+        for sw, items in wps:
+            for ns, w in writer_fields(items, wp0):
+                if ns and '|' not in ns and w is not None and codec._int(w) is not None:
+                    ww.setdefault(ns, set()).add(codec._int(w))
+        # fixed widths: a field both sides give a constant width (on any of their paths) must have a width in common
+        for n in sorted(rw):
+            if n not in ww:
+                continue
+            if rw[n] & ww[n]:
+                rep.ok('C08.c', '%s.%s' % (c.name, n), 'width %s both ways' % sorted(rw[n] & ww[n]))
+            else:
+                rep.violation('C08.c', '%s parse/__bytearray__' % c.name, 'field %s: reader %s octets, writer %s' % (n, sorted(rw[n]), sorted(ww[n])),
+                              'field %s is read with %s octets but written with %s' % (n, sorted(rw[n]), sorted(ww[n])), where=pf.where)
     # key material: parse order = __pubfields__ / __privfields__ order
     fields = prog.module('pgpy.packet.fields')
     for c in fields.classes.values():
@@ -346,108 +375,326 @@ def check_field_order(rep, prog, classes):
                 decl = None
         if not decl:
             continue
-        order = []
-        for n in ast.walk(pf.node):
-            pass
-        for st in ast.walk(pf.node):
-            if isinstance(st, ast.Assign) and isinstance(st.targets[0], ast.Attribute) and isinstance(st.value, ast.Call) and \
-                    dotted(st.value.func) in ('MPI', 'ECPoint') and ast.unparse(st.targets[0].value) == 'self':
-                if st.targets[0].attr not in order:
-                    order.append(st.targets[0].attr)
-        order_decl = [x for x in order if x in decl]
-        rep.check(order_decl == decl, 'C08.c', '%s.parse' % c.name, 'MPI read order %s, declared/written order %s' % (order, decl),
+        # the order in which each path of the reader takes the declared integers off the buffer (reader sequence: MPI(buf) / ECPoint(buf)
+        # constructions in event order, named by the field each one ends up in - directly or through locals); every path must follow
+        # the declared order and together they must cover it
+        buf = pf.params[1] if len(pf.params) > 1 else 'packet'
+        p0 = pf.params[0]
+        seen = []
+        orders = []
+        for s in reader_paths(prog, c, pf):
+            if s.raised is not None:
+                continue
+            reads, _ = codec.reader_sequence(s, buf, cls=c, recv=p0)
+            order = []
+            for r in reads:
+                if r.kind == 'delegate' and r.via in ('MPI', 'ECPoint') and r.target and r.target.startswith(p0 + '.') and '.' not in r.target[len(p0) + 1:]:
+                    if r.target[len(p0) + 1:] not in order:
+                        order.append(r.target[len(p0) + 1:])
+            orders.append(order)
+            for x in order:
+                if x in decl and x not in seen:
+                    seen.append(x)
+        bad = [o for o in orders if [x for x in o if x in decl] != [d for d in decl if d in o]]
+        missing = [d for d in decl if d not in seen]
+        rep.check(not bad and not missing, 'C08.c', '%s.parse' % c.name, 'MPI read order %s, declared/written order %s' % (bad[0] if bad else orders[:1], decl),
                   'the integers are written in the declared field order; the reader must fill them in the same order', where=pf.where,
-                  expected=decl, found=order)
+                  expected=decl, found=bad[0] if bad else ('never read: %s' % missing if missing else orders[:1]))
 
 
 def _dedupe(seq):
     out = []
     for x in seq:
-        if not out or out[-1] != x:
+        if not out or not _same(out[-1], x):
             out.append(x)
     return out
 
 
 def _subseq(a, b):
-    """a is a subsequence of b or b of a (one side may name helper fields the other folds together)."""
+    """a is a subsequence of b or b of a (one side may name helper fields the other folds together); equal sequences included."""
     def sub(x, y):
         it = iter(y)
-        return all(any(e == f for f in it) for e in x)
+        return all(any(_same(e, f) for f in it) for e in x)
     return sub(a, b) or sub(b, a)
 
 
 # ------------------------------------------------------------------------------------------------ C08.f
-def check_text_codecs(rep, prog):
-    n = 0
-    for mn in ('pgpy.packet.subpackets.signature', 'pgpy.packet.packets'):
-        m = prog.module(mn)
-        for c in m.classes.values():
-            wf = c.methods.get('__bytearray__')
-            if wf is None:
-                continue
-            wsrc = ast.unparse(wf.node)
-            for pname, prop in c.props.items():
-                sb = prop.setters.get('bytearray')
-                if sb is None:
-                    continue
-                ssrc = ast.unparse(sb.node)
-                rc = None
-                m1 = re.search(r"val\.decode\((?:'([^']*)')?\)", ssrc)
-                if m1:
-                    rc = (m1.group(1) or 'utf-8')
-                elif '_decode_text(val)' in ssrc:
-                    rc = _decode_text_primary(prog, c)
-                if rc is None:
-                    continue
-                m2 = re.search(r"self\.%s\.encode\((?:'([^']*)')?\)" % pname, wsrc)
-                if not m2:
-                    continue
-                wc = m2.group(1) or 'utf-8'
-                n += 1
-                rep.check(_norm_codec(wc) == _norm_codec(rc), 'C08.f', '%s.%s' % (c.name, pname), 'read %s, written %s' % (rc, wc),
-                          'text read with one codec and written with another changes the octets on every parse/serialise pass', where=wf.where,
-                          expected=rc, found=wc, scenario=c.name)
-    # LiteralData.filename and UserID.uid (plain attributes)
-    lit = prog.cls('pgpy.packet.packets', 'LiteralData')
-    ps, ws = ast.unparse(lit.methods['parse'].node), ast.unparse(lit.methods['__bytearray__'].node)
-    r = re.search(r"self\.filename = packet\[:fnl\]\.decode\((?:'([^']*)')?\)", ps)
-    w = re.search(r"self\.filename\.encode\((?:'([^']*)')?\)", ws)
-    rep.check(bool(r and w) and _norm_codec(r.group(1) or 'utf-8') == _norm_codec(w.group(1) or 'utf-8'), 'C08.f', 'LiteralData.filename',
-              'read %s, written %s' % (r.group(1) if r else None, w.group(1) if w else None), 'the file name is written with the codec it is read with',
-              where=lit.where)
-    uid = prog.cls('pgpy.packet.packets', 'UserID')
-    ps, ws = ast.unparse(uid.methods['parse'].node), ast.unparse(uid.methods['__bytearray__'].node)
-    ok = "uid_bytes.decode('utf-8')" in ps and "uid_bytes.decode('charmap')" in ps and 'self._encoding_fallback = True' in ps and \
-        "'utf-8' if not self._encoding_fallback else 'charmap'" in ws and 'self.uid.encode(textenc)' in ws
-    rep.check(ok, 'C08.f', 'UserID.uid', 'utf-8 with remembered charmap fallback', 'a user id that is not UTF-8 is written back with the fallback codec it was read with',
-              where=uid.where)
-
-
-def _decode_text_primary(prog, c):
-    f = c.find_method('_decode_text')
-    if f is None:
-        return None
-    src = ast.unparse(f.node)
-    m = re.search(r"try:\s*return val\.decode\('([^']*)'\)", src)
-    return m.group(1) if m else None
+# Text fields, decided on interpreter values: the reader side is every store of `<input octets>.decode(codec)` (or chr(octet), or a
+# helper that returns such a decode) into an attribute by `parse` / a bytes setter, one variant per path (the path through an
+# `except` handler is a fallback); the writer side is every `self.<attr>.encode(codec)` call of `__bytearray__`, run under each value
+# of the boolean attributes its paths test.  No source text is compared.
+CODEC_ALIASES = {'utf8': 'utf-8', 'u8': 'utf-8', 'latin1': 'latin-1', 'latin': 'latin-1', 'l1': 'latin-1', 'iso-8859-1': 'latin-1', 'iso8859-1': 'latin-1',
+                 '8859': 'latin-1', 'charmap': 'latin-1', 'us-ascii': 'ascii', '646': 'ascii'}
+ASCII_SAFE = {'utf-8', 'latin-1', 'ascii', 'cp1252'}
 
 
 def _norm_codec(x):
-    return (x or '').lower().replace('_', '-').replace('utf8', 'utf-8')
+    x = (x or '').lower().replace('_', '-')
+    return CODEC_ALIASES.get(x, x)
+
+
+def _calltext(ft, args, kw):
+    return '%s(%s)' % (ft, ', '.join(list(args) + ['%s=%s' % kv for kv in kw.items()]))
+
+
+def _codec_arg(args, kw, where):
+    """Codec named by the arguments of an encode / decode call event (default utf-8)."""
+    t = args[0] if args else kw.get('encoding')
+    if t is None:
+        return 'utf-8'
+    m = re.match(r"^'([^']*)'$", t)
+    if not m:
+        raise AnalysisError('text codec is not a literal on this path: %s (%s)' % (t, where))
+    return _norm_codec(m.group(1))
+
+
+def decoder_summary(prog, fi):
+    """[(codec, is_fallback)] when every returning path of `fi` returns <its data parameter>.decode(codec); else None."""
+    _SUMMARIES = prog.__dict__.setdefault('_c08_decoder_summaries', {})
+    key = fi.qualname
+    if key in _SUMMARIES:
+        return _SUMMARIES[key]
+    static = any(dotted(d) == 'staticmethod' for d in fi.node.decorator_list)
+    ps = fi.params if (static or fi.cls is None) else fi.params[1:]
+    out = None
+    if len(ps) == 1:
+        data = ps[0]
+        out = []
+        for s in Interp(prog, Scenario(inline=noinline)).run(fi):
+            if s.raised is not None and s.ret is None:
+                continue
+            hit = None
+            for ft, args, kw, line, node in s.calls:
+                if ft == data + '.decode' and s.ret is not None and render(s.ret) == _calltext(ft, args, kw):
+                    hit = _codec_arg(args, kw, fi.where)
+            if hit is None:
+                out = None
+                break
+            out.append((hit, any(f[0].startswith('except ') for f in s.facts)))
+    _SUMMARIES[key] = out
+    return out
+
+
+def _resolve_helper(prog, c, f, ft):
+    name = ft.split('.')[-1]
+    prefix = ft[:-(len(name) + 1)] if '.' in ft else ''
+    if name in ('decode', 'encode', 'bytes_to_int', 'int_to_bytes') or name.startswith('super:'):
+        return None
+    if prefix == '':
+        r = prog.lookup(f.module, name)
+        return r if hasattr(r, 'params') and hasattr(r, 'node') and getattr(r, 'cls', None) is None else None
+    if prefix == f.params[0]:
+        return c.find_method(name)
+    for k in prog.classes_by_name.get(prefix, []):
+        m = k.find_method(name)
+        if m is not None:
+            return m
+    return None
+
+
+def _const_flag(val):
+    return isinstance(val, Const) and (isinstance(val.value, bool) or val.value is None)
+
+
+def reader_text_fields(prog, c):
+    """field name -> [variant]; variant = dict(codec, fallback, flags, hexsafe, where).  One variant per (path, decode) that reaches an
+    attribute of the object."""
+    fns = []
+    if 'parse' in c.methods:
+        fns.append(c.methods['parse'])
+    for pr in c.props.values():
+        for tn in ('bytearray', 'bytes'):
+            f = pr.setters.get(tn)
+            if f is not None and f not in fns:
+                fns.append(f)
+    out = {}
+    for f in fns:
+        if len(f.params) < 2:
+            continue
+        p0, data = f.params[0], f.params[1]
+        sc = Scenario(inline=noinline, forward_stores=False, model_del=False, self_cls=c)
+        for s in Interp(prog, sc).run(f):
+            if s.raised is not None and not s.stores:
+                continue
+            decs = []
+            for ft, args, kw, line, node in s.calls:
+                text = _calltext(ft, args, kw)
+                if ft.endswith('.decode'):
+                    decs.append((text, ft[:-len('.decode')], (args, kw)))
+                elif ft == 'chr' and len(args) == 1 and not kw:
+                    decs.append((text, args[0], [('latin-1', False)]))        # chr(octet) is the latin-1 reading of one octet
+                elif ft.endswith('.hex') and not args and not kw:
+                    decs.append((text, 'hexlify(%s)' % ft[:-len('.hex')], [('ascii', False)]))      # octets.hex(): hex digits, ASCII only
+                elif ft == 'str' and args and (len(args) >= 2 or 'encoding' in kw):
+                    decs.append((text, args[0], (args[1:], kw)))             # str(octets, codec) is octets.decode(codec)
+                elif args:
+                    h = _resolve_helper(prog, c, f, ft)
+                    summ = decoder_summary(prog, h) if h is not None else None
+                    if summ:
+                        decs.append((text, args[0], summ))
+            if not decs:
+                continue
+            flags = {}
+            for pth, vt, line, val in s.stores:
+                if pth.startswith(p0 + '.') and '.' not in pth[len(p0) + 1:] and _const_flag(val):
+                    flags[pth[len(p0) + 1:]] = val.value
+            in_handler = any(fc[0].startswith('except ') for fc in s.facts)
+            for pth, vt, line, val in s.stores:
+                if not (pth.startswith(p0 + '.') and '.' not in pth[len(p0) + 1:]):
+                    continue
+                for text, recv, variants in decs:
+                    if text in vt and codec.mentions(recv, data):
+                        if isinstance(variants, tuple):
+                            variants = [(_codec_arg(variants[0], variants[1], f.where), False)]
+                        for cd, fb in variants:
+                            out.setdefault(pth[len(p0) + 1:].lstrip('_'), []).append(
+                                {'codec': cd, 'fallback': fb or in_handler, 'flags': dict(flags), 'hexsafe': 'hexlify(' in recv,
+                                 'where': '%s:%d' % (f.module.relpath, line), 'fn': f.qualname})
+    return out
+
+
+def writer_text_fields(prog, c, wf, bind=None):
+    """field name -> set of codecs `self.<field>.encode(codec)` is called with on the paths of the writer under `bind`;
+    also the boolean attributes of the object the paths branch on."""
+    p0 = wf.params[0]
+    sc = Scenario(inline=noinline, self_cls=c, bind={'%s.%s' % (p0, k): Const(v) for k, v in (bind or {}).items()})
+    enc, atoms = {}, set()
+
+    def walk(sk):
+        if not sk:
+            return
+        if sk[0] == 'not':
+            walk(sk[1])
+        elif sk[0] in ('and', 'or'):
+            for x in sk[1]:
+                walk(x)
+        elif sk[0] == 'expr':
+            m = re.match(r'^%s\.([A-Za-z_][A-Za-z0-9_]*)$' % re.escape(p0), sk[1])
+            if m:
+                atoms.add(m.group(1))
+        elif sk[0] == 'cmp' and sk[1] in ('==', '!=', 'is', 'is not'):
+            for a, b in ((sk[2], sk[3]), (sk[3], sk[2])):
+                m = re.match(r'^%s\.([A-Za-z_][A-Za-z0-9_]*)$' % re.escape(p0), a)
+                if m and b in ('True', 'False'):
+                    atoms.add(m.group(1))
+    for s in Interp(prog, sc).run(wf):
+        if s.raised is not None and s.ret is None:
+            continue
+        for fc in s.facts:
+            walk(fc[2] if len(fc) > 2 else None)
+        for ft, args, kw, line, node in s.calls:
+            if ft.endswith('.encode') and ft.startswith(p0 + '.') and '.' not in ft[len(p0) + 1:-len('.encode')]:
+                enc.setdefault(ft[len(p0) + 1:-len('.encode')].lstrip('_'), set()).add(_codec_arg(args, kw, wf.where))
+            elif ft in ('bytes.fromhex', 'bytearray.fromhex') and len(args) == 1 and args[0].startswith(p0 + '.') and '.' not in args[0][len(p0) + 1:]:
+                enc.setdefault(args[0][len(p0) + 1:].lstrip('_'), set()).add('ascii')        # hex digits back to octets
+            elif ft in ('bytes', 'bytearray') and args and (len(args) >= 2 or 'encoding' in kw) and args[0].startswith(p0 + '.') and \
+                    '.' not in args[0][len(p0) + 1:]:
+                # bytes(self.f, codec) is self.f.encode(codec)
+                enc.setdefault(args[0][len(p0) + 1:].lstrip('_'), set()).add(_codec_arg(args[1:], kw, wf.where))
+    return enc, atoms
+
+
+def _init_flags(prog, c):
+    f = c.find_method('__init__')
+    out = {}
+    if f is None or not f.params:
+        return out
+    p0 = f.params[0]
+    for s in Interp(prog, Scenario(inline=noinline, self_cls=c)).run(f):
+        for pth, vt, line, val in s.stores:
+            if pth.startswith(p0 + '.') and '.' not in pth[len(p0) + 1:] and _const_flag(val):
+                out[pth[len(p0) + 1:]] = val.value
+    return out
+
+
+def _same_codec(rc, wcs, hexsafe):
+    if hexsafe:
+        return bool(wcs) and rc in ASCII_SAFE and all(w in ASCII_SAFE for w in wcs)
+    return wcs == {rc}
+
+
+def check_text_codecs(rep, prog):
+    import itertools
+    for mn in MODS:
+        m = prog.module(mn)
+        for c in m.classes.values():
+            wf = c.find_method('__bytearray__')
+            if wf is None or wf.cls.name == 'PGPObject':
+                continue
+            rfields = reader_text_fields(prog, c)
+            if not rfields and not c.defines('__bytearray__'):
+                continue
+            wenc, atoms = writer_text_fields(prog, c, wf)
+            for fld in sorted(set(wenc) - set(rfields)):
+                if c.defines('__bytearray__') and (c.defines('parse') or c.props):
+                    raise AnalysisError('%s.__bytearray__ encodes text field %s but no decode into it was recognised in parse / the bytes setters' % (c.name, fld))
+            for fld in sorted(set(rfields) & set(wenc)):
+                variants = rfields[fld]
+                construct = '%s.%s' % (c.name, fld)
+                init = _init_flags(prog, c)
+                # the boolean attributes that can distinguish object states: those the writer branches on and those the reader sets on
+                # some paths of this field only (a remembered fallback)
+                rflags = set(g for v in variants for g in v['flags'] if any(w['flags'].get(g, init.get(g, False)) != v['flags'][g] for w in variants))
+                flags = sorted(a for a in (atoms | rflags) if a != fld and a != '_' + fld)
+                if len(flags) > 3:
+                    raise AnalysisError('%s.__bytearray__ branches on %d boolean attributes' % (c.name, len(flags)))
+
+                def state(v):
+                    return tuple(bool(v['flags'].get(g, init.get(g, False))) for g in flags)
+                wtab = {}
+                for combo in itertools.product((False, True), repeat=len(flags)):
+                    wtab[combo] = writer_text_fields(prog, c, wf, dict(zip(flags, combo)))[0].get(fld, set())
+                primaries = [v for v in variants if not v['fallback']]
+                if not primaries:
+                    raise AnalysisError('%s: every decode of %s sits in an exception handler' % (c.name, fld))
+                pstates = set(state(v) for v in primaries)
+                for v in variants:
+                    st = state(v)
+                    scen = '%s%s' % ('fallback ' if v['fallback'] else '', ', '.join('%s=%s' % kv for kv in zip(flags, st)) or 'read in %s' % v['fn'])
+                    if v['fallback'] and st in pstates:
+                        # a fallback the object does not remember: foreign octets are normalised once to the primary codec (fixed point
+                        # afterwards); the primary variant carries the comparison
+                        rep.ok('C08.f', construct, 'unremembered fallback %s normalises to the primary codec' % v['codec'], scenario=scen, nontrivial=False)
+                        continue
+                    wcs = wtab[st]
+                    rep.check(_same_codec(v['codec'], wcs, v['hexsafe']), 'C08.f', construct, 'read %s, written %s (%s)' % (v['codec'], sorted(wcs), scen),
+                              'text read with one codec and written with another changes the octets on every parse/serialise pass', where=v['where'],
+                              expected=v['codec'], found=sorted(wcs), scenario=scen)
+                # every codec arm of the writer must be reachable from a reader path that sets the attributes it tests
+                rstates = set(state(v) for v in variants)
+                for st in sorted(wtab):
+                    if any(wtab[st] != wtab[p] for p in pstates) and st not in rstates:
+                        rep.violation('C08.f', construct, 'writer uses %s when %s, but no reader path leaves the object in that state' %
+                                      (sorted(wtab[st]), ', '.join('%s=%s' % kv for kv in zip(flags, st))),
+                                      'the writer chooses the codec from an attribute the reader never sets on the path that used that codec: '
+                                      'octets read with the fallback codec are written with the primary one', where=wf.where,
+                                      expected='a reader path storing %s' % ', '.join('%s=%s' % kv for kv in zip(flags, st)), found=sorted(set(rstates)),
+                                      scenario=', '.join('%s=%s' % kv for kv in zip(flags, st)))
 
 
 # ------------------------------------------------------------------------------------------------ C08.g
+def _class_const(prog, c, name):
+    """Value of the class-level constant `name` defined in the body of class `c` (literal, enum member, folded expression) or None."""
+    av = c.attrs.get(name)
+    if av is None:
+        return None
+    fr = Frame(Interp(prog, Scenario()), FunctionInfo(ast.parse('def _f(): pass').body[0], c.module, c), 0)
+    v = fr.ev(av, State())
+    if isinstance(v, Const):
+        return v.value.value if isinstance(v.value, Enum) else v.value
+    return None
+
+
 def check_dispatch(rep, prog):
     tags = prog.cls('pgpy.constants', 'PacketTag').enum_members()
     pk = prog.module('pgpy.packet.packets')
     by_tag = {}
     for c in pk.classes.values():
-        t = c.attrs.get('__typeid__')
-        if t is not None:
-            try:
-                by_tag.setdefault(ast.literal_eval(t), []).append(c)
-            except Exception:
-                pass
+        if '__typeid__' in c.attrs:
+            t = _class_const(prog, c, '__typeid__')
+            if t is None and not (isinstance(c.attrs['__typeid__'], ast.Constant) and c.attrs['__typeid__'].value is None):
+                raise AnalysisError('%s.__typeid__ is not a constant the checker can evaluate' % c.name)
+            by_tag.setdefault(t, []).append(c)
     for name, val in tags.items():
         if name == 'Invalid':
             continue
@@ -455,91 +702,417 @@ def check_dispatch(rep, prog):
         rep.check(bool(cs), 'C08.g', 'PacketTag.%s' % name, 'tag %d -> %s' % (val, [c.name for c in cs]),
                   'every packet tag PGPy names must have a packet class (unknown tags fall back to Opaque)', where=pk.relpath, scenario=name)
         for c in cs:
-            ver = c.attrs.get('__ver__')
-            if ver is not None and ast.literal_eval(ver) == 0:
+            if _class_const(prog, c, '__ver__') == 0:
                 # versioned family: at least one concrete version defining both methods
-                subs = [s for s in prog.subclasses(c) if s.attrs.get('__ver__') is not None and ast.literal_eval(s.attrs['__ver__']) > 0]
+                subs = [s for s in prog.subclasses(c) if (_class_const(prog, s, '__ver__') or 0) > 0]
                 ok = bool(subs) and all(s.find_method('parse') is not None and s.find_method('__bytearray__') is not None and
                                         s.find_method('parse').cls.name not in ('Packet', 'PGPObject') for s in subs)
                 rep.check(ok, 'C08.g', c.name, 'versions %s' % [s.name for s in subs], 'a versioned packet family needs a concrete version with both codec methods',
                           where=c.where)
-    # Opaque fallback keeps the payload verbatim and is bounded by the header length
+    check_opaque(rep, prog)
+    check_dispatcher(rep, prog)
+
+
+def check_opaque(rep, prog):
+    """Opaque fallback: the payload is the next header.length octets (minus the version octet the dispatcher already consumed for a
+    versioned header), stored untransformed, and exactly those octets are consumed."""
     op = prog.cls('pgpy.packet.types', 'Opaque')
-    ps = ast.unparse(op.methods['parse'].node).replace(' ', '')
-    rep.check('pend=self.header.length' in ps and "ifhasattr(self.header,'version'):pend-=1" in ps.replace('\n', '') and 'self.payload=packet[:pend]' in ps and
-              'delpacket[:pend]' in ps, 'C08.g', 'Opaque.parse', 'payload = header.length octets (minus a version octet already read)',
-              'an unknown packet is kept verbatim and consumes exactly its own length', where=op.where)
+    pf = op.methods.get('parse')
+    if pf is None:
+        raise AnalysisError('Opaque.parse not found')
+    p0, buf = pf.params[0], pf.params[1]
+    length = '%s.header.length' % p0
+    seen = set()
+    for s in reader_paths(prog, op, pf):
+        if s.raised is not None:
+            continue
+        reads, problems = codec.reader_sequence(s, buf, cls=op, recv=p0)
+        versioned = _versioned_fact(s, p0)
+        seen.add(versioned)
+        want = lin_add(length, '1', -1) if versioned else length
+        body = [r for r in reads if not (r.kind == 'delegate' and (r.via or '').startswith('super:'))]
+        ok = not problems and len(body) == 1 and body[0].kind == 'fixed' and body[0].target == '%s.payload' % p0 and \
+            body[0].text == sl(buf, ('', want)) and body[0].post in (None, body[0].text) and body[0].width == want
+        rep.check(ok, 'C08.g', 'Opaque.parse', 'payload = %s' % [(r.target, r.text, r.width) for r in body],
+                  'an unknown packet is kept verbatim and consumes exactly its own length (header.length, less the version octet already read)',
+                  where=pf.where, expected='%s.payload = %s, consumed' % (p0, sl(buf, ('', want))), found=[(r.target, r.post or r.text, r.width) for r in body] + [p[1] for p in problems],
+                  scenario='versioned header' if versioned else 'plain header')
+    if False not in seen:
+        raise AnalysisError('Opaque.parse: the plain header case was not recognised')
+    if True not in seen:
+        rep.violation('C08.g', 'Opaque.parse', 'no path accounts for the version octet of a versioned header',
+                      'for a packet with a versioned header the dispatcher has already consumed the version octet: the opaque payload is header.length - 1 octets',
+                      where=pf.where, expected='a path for headers that have a version, taking %s' % lin_add(length, '1', -1), found='header.length on every path',
+                      scenario='versioned header')
+
+
+def _split_top(t, sep=', '):
+    parts, depth, cur, i = [], 0, '', 0
+    while i < len(t):
+        ch = t[i]
+        if ch in '([{':
+            depth += 1
+        elif ch in ')]}':
+            depth -= 1
+        if depth == 0 and t.startswith(sep, i):
+            parts.append(cur)
+            cur = ''
+            i += len(sep)
+            continue
+        cur += ch
+        i += 1
+    parts.append(cur)
+    return parts
+
+
+def _registry_key(x, reg):
+    """X = REG[(a, b..)] / REG.get((a, b..)) -> [a, b, ..]; None when X is not a registry lookup."""
+    for pre, post in ((reg + '[', ']'), (reg + '.get(', ')')):
+        if x.startswith(pre) and x.endswith(post):
+            inner = x[len(pre):-len(post)]
+            parts = _split_top(inner)
+            if pre.endswith('.get(') and len(parts) == 2 and parts[1] == 'None':
+                inner = parts[0]
+            if inner.startswith('(') and inner.endswith(')') and _balanced(inner[1:-1]):
+                return _split_top(inner[1:-1])
+    return None
+
+
+def _balanced(t):
+    d = 0
+    for ch in t:
+        if ch in '([{':
+            d += 1
+        elif ch in ')]}':
+            d -= 1
+            if d < 0:
+                return False
+    return d == 0
+
+
+def check_dispatcher(rep, prog):
+    """MetaDispatchable.__call__ on interpreter paths: which registry entry the object that parses the body is made from."""
     md = prog.method('pgpy.types', 'MetaDispatchable', '__call__')
-    src = ast.unparse(md.node)
-    rep.check('ncls = MetaDispatchable._registry[rcls, None]' in src.replace('(', '').replace(')', '') or 'MetaDispatchable._registry[(rcls, None)]' in src,
-              'C08.g', 'MetaDispatchable.__call__', 'Opaque fallback', 'unknown type / version falls back to the opaque class', where=md.where)
-    rep.check('raise PGPError(str(ex)) from ex' in src, 'C08.g', 'MetaDispatchable.__call__', 'parse errors wrapped', 'a malformed packet surfaces as PGPError', where=md.where)
+    if len(md.params) < 2:
+        raise AnalysisError('MetaDispatchable.__call__: no packet parameter')
+    p0, buf = md.params[0], md.params[1]
+    REG, ROOTS = 'REGISTRY', 'ROOTS'
+    # helpers of the metaclass itself (an object factory hoisted out of __call__, ...) are followed; everything else stays opaque
+    own = lambda fi: fi.cls is not None and fi.cls is md.cls and fi.name != md.name  # noqa: E731
+    sc = Scenario(inline=own, bind={'MetaDispatchable._registry': Sym(REG), 'MetaDispatchable._roots': Sym(ROOTS), '%s._registry' % p0: Sym(REG), '%s._roots' % p0: Sym(ROOTS)},
+                  args={buf: Sym(buf, nonnull=True)}, axioms={'(%s in %s)' % (p0, ROOTS): True})
+    outs = Interp(prog, sc).run(md)
+    keys_used, n = [], 0
+    parse_nodes = {}
+    for s in outs:
+        # lookups this path assumed to fail / succeed (a path that assumes both for one key is infeasible)
+        failed, found = set(), set()
+        ver0 = set()
+
+        def note(sk, truth):
+            if not sk:
+                return
+            if sk[0] == 'not':
+                note(sk[1], not truth)
+            elif sk[0] == 'and' and truth:
+                for x in sk[1]:
+                    note(x, True)
+            elif sk[0] == 'or' and not truth:
+                for x in sk[1]:
+                    note(x, False)
+            elif sk[0] == 'cmp':
+                op, a, b = sk[1], sk[2], sk[3]
+                if op in ('in', 'not in') and b == REG:
+                    k = tuple(_split_top(a[1:-1])) if a.startswith('(') else (a,)
+                    (found if (op == 'in') == truth else failed).add(k)
+                elif op in ('is', 'is not', '==', '!=') and 'None' in (a, b):
+                    x = a if b == 'None' else b
+                    k = _registry_key(x, REG)
+                    if k is not None:
+                        (failed if (op in ('is', '==')) == truth else found).add(tuple(k))
+                elif op == '==' and truth and a.endswith('.__ver__') and b == '0':
+                    ver0.add(a[:-len('.__ver__')])
+        for fc in s.facts:
+            note(fc[2] if len(fc) > 2 else None, fc[1])
+        if failed & found:
+            continue
+        for ft, args, kw, line, node in s.calls:
+            if ft.endswith('.parse') and args == [buf]:
+                parse_nodes.setdefault(ft[:-len('.parse')], node)
+        if s.raised is not None or s.ret is None or render(s.ret) == 'None':
+            continue
+        if any(fc[0].startswith('except ') for fc in s.facts):
+            continue                      # a handler that does not raise: reported by the wrapping rule below
+        obj = render(s.ret)
+        if not any(e[0] == 'call' and e[1] == obj + '.parse' and e[2] == [buf] for e in s.events):
+            if any(e[0] == 'call' and e[1].endswith('.parse') for e in s.events):
+                raise AnalysisError('MetaDispatchable.__call__: the returned object (%s) does not parse the body' % obj[:80])
+            continue                      # the no-packet path: a plain instance
+        m = re.match(r'^(?:object|.+)\.__new__\((.*)\)$', obj)
+        x = m.group(1) if m else (obj[:-2] if obj.endswith('()') else None)
+        if x is None:
+            raise AnalysisError('MetaDispatchable.__call__: unrecognised construction %s' % obj[:120])
+        hdr = [e[2] for e in s.events if e[0] == 'store' and e[1] == obj + '.header']
+        key = _registry_key(x, REG)
+        n += 1
+        scen = '; '.join('%s=%s' % (fc[0][:60], fc[1]) for fc in s.facts) or 'straight line'
+        form = None
+        if key is not None and key[0] == p0:
+            if len(key) == 2 and key[1] == 'None':
+                form = 'fallback'
+            elif len(key) == 2 and key[1].endswith('.typeid'):
+                form = 'type'
+            elif len(key) == 3 and key[1].endswith('.typeid') and hdr and key[2] == hdr[-1] + '.version':
+                form = 'type+version'
+        ok = form is not None and not (form != 'fallback' and tuple(key) in failed) and not (x in ver0)
+        if form:
+            keys_used.append(form)
+        rep.check(ok, 'C08.g', 'MetaDispatchable.__call__', 'object made from %s' % x[:160],
+                  'the class that parses the body is the registry entry for (root, type) or (root, type, version of the parsed header); when that '
+                  'lookup fails, or only the version-0 placeholder is known, it is the opaque entry (root, None)', where=md.where,
+                  expected='%s[(root, typeid)] / [(root, typeid, version)] / [(root, None)]' % REG, found=x[:200], scenario=scen)
+    if not n:
+        raise AnalysisError('MetaDispatchable.__call__: no dispatching path recognised')
+    rep.check('fallback' in keys_used and 'type' in keys_used and 'type+version' in keys_used, 'C08.g', 'MetaDispatchable.__call__',
+              'registry keys used: %s' % sorted(set(keys_used)), 'unknown type / version falls back to the opaque class; known ones reach their class',
+              where=md.where, expected=['fallback', 'type', 'type+version'], found=sorted(set(keys_used)))
+    # parse errors of the body (and of a re-parsed versioned header) surface as PGPError
+    parents = {}
+    for node in ast.walk(md.node):
+        for ch in ast.iter_child_nodes(node):
+            parents[id(ch)] = node
+
+    def wrapped(node):
+        cur, child = parents.get(id(node)), node
+        while cur is not None:
+            if isinstance(cur, ast.Try) and any(child is st or any(child is x for x in ast.walk(st)) for st in cur.body):
+                for h in cur.handlers:
+                    names = [dotted(h.type)] if h.type is not None and not isinstance(h.type, ast.Tuple) else \
+                        ([dotted(e) for e in h.type.elts] if h.type is not None else [None])
+                    if any(nm in (None, 'Exception', 'BaseException') for nm in names):
+                        last = h.body[-1] if h.body else None
+                        if isinstance(last, ast.Raise) and last.exc is not None:
+                            exc = last.exc
+                            if isinstance(exc, ast.Name):      # raise <local bound in the handler to the exception object>
+                                for st in h.body[:-1]:
+                                    if isinstance(st, ast.Assign) and any(isinstance(t, ast.Name) and t.id == exc.id for t in st.targets):
+                                        exc = st.value
+                            nm = dotted(exc.func) if isinstance(exc, ast.Call) else dotted(exc)
+                            ci = prog.lookup(md.module, nm) if nm else None
+                            if hasattr(ci, 'is_subclass_of') and ci.is_subclass_of('PGPError'):
+                                return True
+                        return False
+            child, cur = cur, parents.get(id(cur))
+        return False
+    guarded = 0
+    for recv, node in sorted(parse_nodes.items()):
+        if recv == '%s.__headercls__()' % p0:
+            continue                      # the first header parse of the root class
+        guarded += 1
+        rep.check(wrapped(node), 'C08.g', 'MetaDispatchable.__call__', '%s.parse(%s) not inside a handler that raises PGPError' % (recv[:100], buf),
+                  'a malformed packet surfaces as PGPError', where='%s:%d' % (md.module.relpath, node.lineno), scenario=recv[:100])
+    if guarded < 2:
+        raise AnalysisError('MetaDispatchable.__call__: body / versioned-header parse calls not recognised')
 
 
 # ------------------------------------------------------------------------------------------------ C08.h
+# An update site is a library function that builds a new packet object, or changes the body of one it was given, and must leave it
+# with a header length that matches the body.  The object is identified by what it IS on the interpreter path - the receiver (`self`),
+# a parameter, the object a constructor call of a given class returned, the object made by the subpacket-module factory - never by
+# the local name it happens to be bound to.  On every path that changes the object, an update_hlen() call on it must follow the last
+# change (attribute stores below the object, calls of methods that modify their receiver, setattr).
 UPDATE_SITES = [
-    # (module, class, method, object text, scenario axioms)
-    ('pgpy.pgp', 'PGPUID', 'new', 'uid._uid', {}),
-    ('pgpy.pgp', 'PGPMessage', 'new', 'lit', {}),
-    ('pgpy.pgp', 'PGPSignature', 'make_onepass', 'onepass', {}),
-    ('pgpy.pgp', 'PGPKey', '_sign', 'sig._signature', {}),
-    ('pgpy.pgp', 'PGPKey', 'add_subkey', 'key._key', {}),
-    ('pgpy.pgp', 'PGPMessage', '__bytearray__', 'comp', {}),
-    ('pgpy.packet.packets', 'PKESessionKeyV3', 'encrypt_sk', 'self', {}),
-    ('pgpy.packet.packets', 'SKESessionKeyV4', 'encrypt_sk', 'self', {}),
-    ('pgpy.packet.packets', 'IntegrityProtectedSKEDataV1', 'encrypt', 'self', {}),
-    ('pgpy.packet.packets', 'IntegrityProtectedSKEDataV1', 'encrypt', 'mdc', {}),
-    ('pgpy.packet.packets', 'PrivKeyV4', 'new', 'pk', {}),
-    ('pgpy.packet.packets', 'PrivKeyV4', 'pubkey', 'pk', {}),
-    ('pgpy.packet.packets', 'PrivKeyV4', 'protect', 'self', {}),
-    ('pgpy.packet.fields', 'SubPackets', 'addnew', 'nsp', {}),
+    # (module, class, method, selector, join undecided branches)
+    ('pgpy.pgp', 'PGPUID', 'new', ('new', 'UserAttribute'), False),
+    ('pgpy.pgp', 'PGPUID', 'new', ('new', 'UserID'), False),
+    ('pgpy.pgp', 'PGPMessage', 'new', ('new', 'LiteralData'), False),
+    ('pgpy.pgp', 'PGPSignature', 'make_onepass', ('new', 'OnePassSignatureV3'), False),
+    ('pgpy.pgp', 'PGPKey', '_sign', ('param', 'sig', '._signature'), True),
+    ('pgpy.pgp', 'PGPKey', 'add_subkey', ('new', 'PrivSubKeyV4'), False),
+    ('pgpy.pgp', 'PGPMessage', '__bytearray__', ('new', 'CompressedData'), False),
+    ('pgpy.packet.packets', 'PKESessionKeyV3', 'encrypt_sk', ('self',), False),
+    ('pgpy.packet.packets', 'SKESessionKeyV4', 'encrypt_sk', ('self',), False),
+    ('pgpy.packet.packets', 'IntegrityProtectedSKEDataV1', 'encrypt', ('self',), False),
+    ('pgpy.packet.packets', 'IntegrityProtectedSKEDataV1', 'encrypt', ('new', 'MDC'), False),
+    ('pgpy.packet.packets', 'PrivKeyV4', 'new', ('new', 'PrivKeyV4'), False),
+    ('pgpy.packet.packets', 'PrivKeyV4', 'pubkey', ('new', 'PubKeyV4'), False),
+    ('pgpy.packet.packets', 'PrivKeyV4', 'pubkey', ('new', 'PubSubKeyV4'), False),
+    ('pgpy.packet.packets', 'PrivKeyV4', 'protect', ('self',), False),
+    ('pgpy.packet.fields', 'SubPackets', 'addnew', ('factory', '_spmodule'), False),
 ]
+
+BUILTIN_MUTATORS = {'append', 'extend', 'insert', 'update', 'add', 'remove', 'pop', 'clear', 'setdefault', 'sort', 'reverse', 'popitem', 'discard',
+                    'appendleft', 'extendleft'}
+
+
+def _root_name(n):
+    while isinstance(n, (ast.Attribute, ast.Subscript)):
+        n = n.value
+    return n.id if isinstance(n, ast.Name) else None
+
+
+def mutating_methods(prog):
+    """Names of methods (of the packet layer) that modify their receiver: a definition stores to / deletes / setattr()s an attribute or
+    item of its first parameter, calls a container mutator on one of its attributes, or calls another such method on it."""
+    cached = prog.__dict__.get('_c08_mutators')
+    if cached is not None:
+        return cached
+    defs = {}
+    for c in prog.all_classes():
+        if not c.module.name.startswith('pgpy.packet'):
+            continue
+        for name, fi in c.methods.items():
+            defs.setdefault(name, []).append(fi)
+    muts = set()
+
+    def direct(fi):
+        if not fi.params:
+            return False
+        me = fi.params[0]
+        for n in ast.walk(fi.node):
+            if isinstance(n, (ast.Attribute, ast.Subscript)) and isinstance(n.ctx, (ast.Store, ast.Del)) and _root_name(n) == me:
+                return True
+            if isinstance(n, ast.Call):
+                if dotted(n.func) == 'setattr' and n.args and _root_name(n.args[0]) == me:
+                    return True
+                if isinstance(n.func, ast.Attribute) and n.func.attr in BUILTIN_MUTATORS and isinstance(n.func.value, (ast.Attribute, ast.Subscript)) and \
+                        _root_name(n.func.value) == me:
+                    return True
+        return False
+    for name, fis in defs.items():
+        if any(direct(fi) for fi in fis):
+            muts.add(name)
+    changed = True
+    while changed:
+        changed = False
+        for name, fis in defs.items():
+            if name in muts:
+                continue
+            for fi in fis:
+                me = fi.params[0] if fi.params else None
+                if any(isinstance(n, ast.Call) and isinstance(n.func, ast.Attribute) and n.func.attr in muts and n.func.attr != name and
+                       _root_name(n.func.value) == me for n in ast.walk(fi.node)):
+                    muts.add(name)
+                    changed = True
+                    break
+    muts.discard('update_hlen')
+    prog.__dict__['_c08_mutators'] = muts
+    return muts
+
+
+def _site_roots(f, s, sel):
+    """Texts under which the selected object appears in the events of path `s`."""
+    if sel[0] == 'self':
+        return [f.params[0]]
+    if sel[0] == 'param':
+        if sel[1] not in f.params:
+            raise AnalysisError('%s has no parameter %s' % (f.qualname, sel[1]))
+        return [sel[1] + sel[2]]
+    roots, last = [], None
+    for e in s.events:
+        if e[0] == 'call':
+            ft = e[1]
+            if sel[0] == 'new' and ft == sel[1]:
+                last = _calltext(ft, e[2], e[3])
+                roots.append(last)
+                continue
+            if sel[0] == 'factory' and '%s.%s' % (f.params[0], sel[1]) in ft:
+                roots.append(_calltext(ft, e[2], e[3]))
+        elif e[0] == 'assign' and last is not None and e[2] == e[1]:
+            roots.append(e[1])            # the constructed object is rendered by the local it was bound to first
+        last = None
+    return roots
+
+
+def _site_events(s, root, muts, direct=True):
+    """(indices of body changes, indices of update_hlen calls) of the object `root` in the ordered event log."""
+    ch, up = [], []
+    for i, e in enumerate(s.events):
+        if e[0] == 'store' and (e[1].startswith(root + '.') or e[1].startswith(root + '[')):
+            ch.append((i, e[1]))
+        elif e[0] == 'call':
+            ft, args = e[1], e[2]
+            if ft == 'setattr' and args and (args[0] == root or args[0].startswith(root + '.')):
+                ch.append((i, 'setattr(%s, ...)' % args[0]))
+            elif ft == root + '.update_hlen':
+                up.append(i)
+            elif ft.startswith(root + '.'):
+                meth = ft.split('.')[-1]
+                recv = ft[:-(len(meth) + 1)]
+                if (recv != root or direct) and (meth in muts or meth in BUILTIN_MUTATORS):
+                    ch.append((i, ft + '()'))
+    return ch, up
 
 
 def check_update_hlen(rep, prog):
-    for mod, cls, meth, obj, ax in UPDATE_SITES:
+    muts = mutating_methods(prog)
+    for mod, cls, meth, sel, join in UPDATE_SITES:
         f = prog.method(mod, cls, meth)
         rep.saw(fn=f)
-        # syntactic: the last statement that stores to / mutates obj must be followed (in program order on the same block level
-        # or later) by obj.update_hlen()
-        stores, updates = [], []
-        for n in ast.walk(f.node):
-            if isinstance(n, (ast.Assign, ast.AugAssign)):
-                for t in (n.targets if isinstance(n, ast.Assign) else [n.target]):
-                    if isinstance(t, ast.Attribute) and (ast.unparse(t.value) == obj or ast.unparse(t.value).startswith(obj + '.')):
-                        stores.append(n.lineno)
-            if isinstance(n, ast.Call) and isinstance(n.func, ast.Attribute):
-                base = ast.unparse(n.func.value)
-                if n.func.attr == 'update_hlen' and base == obj:
-                    updates.append(n.lineno)
-                elif base.startswith(obj + '.') or base == obj:
-                    if n.func.attr in ('addnew', 'from_signer', 'encrypt_keyblob', '_generate', 'encrypt', 'append', 'setattr') and n.func.attr != 'update_hlen':
-                        if not (base == obj and n.func.attr == 'encrypt' and obj == 'self'):
-                            stores.append(n.lineno)
-                if dotted(n.func) == 'setattr' and n.args and (ast.unparse(n.args[0]) == obj or ast.unparse(n.args[0]).startswith(obj + '.')):
-                    stores.append(n.lineno)
-        ok = bool(updates) and (not stores or max(updates) > max(stores))
-        rep.check(ok, 'C08.h', '%s.%s' % (cls, meth), '%s: last body change at line %s, update_hlen at %s' % (obj, max(stores) if stores else None, updates),
+        outs = Interp(prog, Scenario(inline=noinline, join_unknown=join)).run(f)
+        seen, bad = 0, []
+        for s in outs:
+            if s.raised is not None:
+                continue
+            for root in _site_roots(f, s, sel):
+                ch, up = _site_events(s, root, muts, direct=sel[0] != 'self')
+                if not ch and not up:
+                    continue
+                seen += 1
+                if ch and not (up and max(up) > max(i for i, _ in ch)):
+                    last = max(ch)
+                    bad.append('%s after %s' % ('no update_hlen()' if not up or max(up) < last[0] else 'update_hlen() only', last[1].replace(root, '<obj>', 1)))
+        what = {'self': 'the receiver', 'param': 'parameter %s' % ''.join(sel[1:]), 'new': 'the new %s' % sel[-1], 'factory': 'the new subpacket'}[sel[0]]
+        if not seen:
+            raise AnalysisError('update site %s.%s: %s is not built or changed on any path' % (cls, meth, what))
+        rep.check(not bad, 'C08.h', '%s.%s' % (cls, meth), '%s: %s' % (what, bad[0] if bad else 'update_hlen() follows the last body change on %d path(s)' % seen),
                   'the packet body is built or changed and the header length is not recomputed afterwards: header length != body length', where=f.where,
-                  expected='%s.update_hlen() after the last change' % obj, found='changes at %s, update_hlen at %s' % (sorted(set(stores))[-3:], updates))
+                  expected='update_hlen() on %s after the last change, on every path' % what, found=sorted(set(bad))[:3], scenario=what)
+
+
+def _hlen_formula(rep, prog, f, const, label, why):
+    """header.length := len(serialised object) - len(header) + const, compared as an integer-linear form of the interpreter value."""
+    p0 = f.params[0]
+    want = ({'len(%s.__bytearray__())' % p0: 1, 'len(%s.header)' % p0: -1}, const)
+    n = 0
+    for s in Interp(prog, Scenario(inline=noinline)).run(f):
+        if s.raised is not None:
+            continue
+        v = [val for pth, val, l, _ in s.stores if pth == '%s.header.length' % p0]
+        n += 1
+        rep.check(len(v) == 1 and lin_parse(v[0].replace('.__bytes__()', '.__bytearray__()')) == want, 'C08.h', label, '%s' % v, why, where=f.where,
+                  expected=lin_norm('len(%s.__bytearray__()) - len(%s.header) + %d' % (p0, p0, const)), found=v)
+    if not n:
+        raise AnalysisError('%s has no returning path' % label)
 
 
 def check_update_hlen_defs(rep, prog):
-    p = prog.method('pgpy.packet.types', 'Packet', 'update_hlen')
-    for s in Interp(prog, Scenario(inline=noinline)).run(p):
-        v = [val for pth, val, l, _ in s.stores if pth == 'self.header.length']
-        rep.check(v == ['(len(self.__bytearray__()) - len(self.header))'], 'C08.h', 'Packet.update_hlen', '%s' % v,
-                  'header length = serialised length minus the header (tag + length octets)', where=p.where)
-    sp = prog.method('pgpy.packet.subpackets.types', 'SubPacket', 'update_hlen')
-    for s in Interp(prog, Scenario(inline=noinline)).run(sp):
-        v = [val for pth, val, l, _ in s.stores if pth == 'self.header.length']
-        rep.check(v == ['((len(self.__bytearray__()) - len(self.header)) + 1)'], 'C08.h', 'SubPacket.update_hlen', '%s' % v,
-                  'subpacket length counts the type octet', where=sp.where)
-    for cls, inner in (('SignatureV4', 'self.subpackets.update_hlen()'), ('UserAttribute', 'self.subpackets.update_hlen()')):
-        f = prog.method('pgpy.packet.packets', cls, 'update_hlen')
-        src = ast.unparse(f.node)
-        rep.check(inner in src and 'super(%s, self).update_hlen()' % cls in src and src.index(inner) < src.index('super('), 'C08.h', '%s.update_hlen' % cls,
-                  'inner lengths first', 'nested subpacket lengths are recomputed before the packet length', where=f.where)
+    _hlen_formula(rep, prog, prog.method('pgpy.packet.types', 'Packet', 'update_hlen'), 0, 'Packet.update_hlen',
+                  'header length = serialised length minus the header (tag + length octets)')
+    _hlen_formula(rep, prog, prog.method('pgpy.packet.subpackets.types', 'SubPacket', 'update_hlen'), 1, 'SubPacket.update_hlen',
+                  'subpacket length counts the type octet')
+    # packets that nest length-carrying containers: on every path the inner lengths are recomputed first, then the packet's own
+    # (order of the two call events, whatever the super call is spelled like)
+    pk = prog.module('pgpy.packet.packets')
+    nested = [c for c in pk.classes.values() if c.defines('update_hlen')]
+    for want in ('SignatureV4', 'UserAttribute'):
+        if want not in [c.name for c in nested]:
+            raise AnalysisError('%s.update_hlen not found' % want)
+    for c in nested:
+        f = c.methods['update_hlen']
+        p0 = f.params[0]
+        for s in Interp(prog, Scenario(inline=noinline, self_cls=c)).run(f):
+            if s.raised is not None:
+                continue
+            calls = [e[1] for e in s.events if e[0] == 'call' and e[1].split('.')[-1] == 'update_hlen']
+            bases = set(k.name for k in c.mro()[1:])
+            own = [i for i, ft in enumerate(calls) if ft.startswith('super:') or ft[:-len('.update_hlen')] in bases]
+            inner = [i for i, ft in enumerate(calls) if ft.startswith(p0 + '.') and ft.count('.') >= 2]
+            ok = len(own) == 1 and bool(inner) and max(inner) < own[0]
+            rep.check(ok, 'C08.h', '%s.update_hlen' % c.name, 'calls in order: %s' % calls,
+                      'nested subpacket lengths are recomputed before the packet length (the packet length is computed from the serialised body)',
+                      where=f.where, expected='<container>.update_hlen() then the inherited update_hlen()', found=calls)
     ln = prog.method('pgpy.packet.types', 'Header', '__len__')
     for s in Interp(prog, Scenario(inline=noinline)).run(ln):
-        rep.check(render(s.ret) == '(1 + self.llen)', 'C08.h', 'packet Header.__len__', render(s.ret), 'header length = tag octet + length octets', where=ln.where)
+        rep.check(s.ret is not None and lin_parse(render(s.ret)) == ({'%s.llen' % ln.params[0]: 1}, 1), 'C08.h', 'packet Header.__len__', render(s.ret),
+                  'header length = tag octet + length octets', where=ln.where)
